@@ -25,3 +25,8 @@
 (declare-fun vlistid (Any Int) Str)
 (declare-fun elistlen (Any) Int)
 (declare-fun elistid (Any Int) Str)
+; ---- aggregations over field types / field names (C19) ----
+; ftype(v): the name gripql.GetFieldType gives to a value; tcnt(name, k): how many of the first k
+; travelers of the aggregation's input have a value of that type name (defined by contract axioms)
+(declare-fun ftype (Any) Str)
+(declare-fun tcnt (Str Int) Int)
